@@ -48,15 +48,20 @@ def weights_1d_union(x_old, x_new):
     return F/np.diff(x_new)[:, None]
 
 
-def matrix_3d(old_nodes, new_nodes):
+def weights_3d(old_nodes, new_nodes):
+    """The three 1-D matrices (Fx, Fy, Fz) of a 3-D pair."""
+    return tuple(weights_1d(o, n) for o, n in zip(old_nodes, new_nodes))
+
+
+def matrix_3d(old_nodes, new_nodes, w=None):
     """Dense F (n_new_cells x n_old_cells), Fortran cell ordering."""
-    fx, fy, fz = (weights_1d(o, n) for o, n in zip(old_nodes, new_nodes))
+    fx, fy, fz = w or weights_3d(old_nodes, new_nodes)
     return np.kron(fz, np.kron(fy, fx))
 
 
-def apply_3d(old_nodes, new_nodes, values):
+def apply_3d(old_nodes, new_nodes, values, w=None):
     """F applied to a cell array of the old grid (no dense 3-D matrix)."""
-    fx, fy, fz = (weights_1d(o, n) for o, n in zip(old_nodes, new_nodes))
+    fx, fy, fz = w or weights_3d(old_nodes, new_nodes)
     return np.einsum('ai,bj,ck,ijk->abc', fx, fy, fz, values)
 
 
